@@ -5,7 +5,6 @@ import (
 	"math"
 
 	"github.com/trajectoryjp/spatial_id_go/v4/common/object"
-	"github.com/trajectoryjp/spatial_id_go/v4/operated"
 	"github.com/trajectoryjp/spatial_id_go/v4/shape"
 	"github.com/trajectoryjp/spatial_id_go/v4/transform"
 
@@ -217,13 +216,18 @@ func judgeCorridor(c *engine.Ctx, s, e *object.Point, radius float64, h, v int64
 				bx.V = vl
 			}
 		}
-		box, err := operated.GetNspatialIdsAroundVoxcels(line, bx.H, bx.V)
-		if err != nil {
-			return
-		}
+		// the box is computed with the reference shift (ref.Vox.Shift), not with the library's own
+		// N-layer function, so that a defect in that function cannot hide itself
 		bx.set = map[string]bool{}
-		for _, x := range box {
-			bx.set[x] = true
+		for _, l := range line {
+			lv := ref.MustExt(l)
+			for dx := -bx.H; dx <= bx.H; dx++ {
+				for dy := -bx.H; dy <= bx.H; dy++ {
+					for dv := -bx.V; dv <= bx.V; dv++ {
+						bx.set[lv.Shift(dx, dy, dv).Ext()] = true
+					}
+				}
+			}
 		}
 		if len(boxMemo) > 64 {
 			boxMemo = map[string]corridorBox{}
